@@ -19,7 +19,7 @@ from vlib import core as V
 from vlib import kernels as K
 
 ID = 'C16'
-LEVEL_TEXT = ("Theorems (Props/C16.v, 34 statements) about a hand model of emg3d.meshes automatic gridding, over "
+LEVEL_TEXT = ("Theorems (Props/C16.v, 45 statements) about a hand model of emg3d.meshes automatic gridding, over "
               "the reals with exact arithmetic, for ALL inputs: good_mg_cell_nr returns exactly the numbers "
               "p*2^n <= max_nr (p in lowest, min_div <= n < 30), sorted; whenever _stretch returns a grid its "
               "widths are positive, their number plus remain is nx, new widths grow by exactly the factor, the "
@@ -36,7 +36,19 @@ LEVEL_TEXT = ("Theorems (Props/C16.v, 34 statements) about a hand model of emg3d
               "mesh node or the warning flag is set; no admissible candidate <=> RuntimeError / None's; "
               "construct_mesh routes properties and direction-specific arguments as documented and fails "
               "loudly. The model is tied to /repo by differential correspondence on every run, including the "
-              "arguments construct_mesh hands to origin_and_widths per direction and _seasurface directly.")
+              "arguments construct_mesh hands to origin_and_widths per direction and _seasurface directly. "
+              "ONE SESSION (Model/GriddingSession.v: state = the arrays the caller holds, nothing else; the "
+              "permitted-count table is the function good_mg_cell_nr, not a stored table), for ALL histories of "
+              "good_mg_cell_nr / origin_and_widths / construct_mesh calls and in-place edits of returned or own "
+              "arrays: a request naming no caller array has the same outcome after any two histories; with caller "
+              "arrays as cell_numbers / vector only their current content matters; good_mg_cell_nr answers the "
+              "table of its arguments after every history; a call never modifies an array the caller holds (the "
+              "heap only grows); an edit changes exactly the array it names; after every history a request without "
+              "cell_numbers that returns a grid has p*2^n <= 1024 cells, p in {2,3,5}, n >= 3. Tied to /repo by the "
+              "history stream (every outcome and the whole heap, in one process, all call forms of "
+              "good_mg_cell_nr, returned arrays must not share memory with arrays the caller already holds) and by "
+              "a source anchor that fails closed on decorators, globals, mutable defaults and module-level "
+              "mutable tables in the gridding functions of meshes.py.")
 LEVEL_NOTE = ("Hand model, not generated: the tie is the correspondence (model on exact rationals vs "
               "emg3d.meshes, tolerance 1e-9), so code paths not reached by the generated parameter sets are "
               "covered only by the model. Input side conditions of oaw_post (input_ok): positive skin depth of "
@@ -49,12 +61,19 @@ LEVEL_NOTE = ("Hand model, not generated: the tie is the correspondence (model o
               "powers in the model; parameter sets where a float quotient ties exactly on an integer are "
               "excluded from the correspondence), np.isclose (modelled by its formula), TensorMesh "
               "construction, the info string. In the no-vector sea-surface branch the squeezed centre width is "
-              "only proved positive.")
+              "only proved positive. Session theorems: that emg3d.meshes keeps no state between calls is a "
+              "property of the model; for the code it rests on the history stream (5 / 15 sessions of about 27 "
+              "steps per run) and the source anchor, not on a proof about Python. Hidden state outside "
+              "meshes.py's gridding functions (maps, numpy, discretize) is not anchored. Simulation / "
+              "estimate_gridding_opts appear only in the searcher's histories (before / after comparison), not in "
+              "the Coq session model.")
 TECHNIQUE = "Coq proof (lia/lra/nra, list induction) over a hand model + differential correspondence (vm_compute on Q)"
 DESIGN_REF = "DESIGN.md section 6 C16"
 GEN = []
 PROPS = 'Props/C16.v'
 TRUSTED = ["Model/Gridding.v is a hand transcription of emg3d/meshes.py (tied by correspondence only)",
+           "Model/GriddingSession.v: 'no state between gridding calls' is tied to the code by the history stream "
+           "and the ast anchor on emg3d/meshes.py only",
            "scipy.optimize.brentq, numpy argsort/linspace/unique, sqrt: oracles / modelled by exact formulas"]
 ASSUMES = ["IEEE rounding not modelled; correspondence tolerance 1e-9 relative on origin and widths",
            "brentq answers are taken from the implementation's own run (recorded), argsort permutation "
@@ -240,10 +259,22 @@ def oaw_kwargs(case):
     return kw
 
 
-def run_oaw(case):
+def run_oaw(case, cells_arg=None, vector_obj=None):
+    """cells_arg: None = case['cell_numbers'] as a list; ('default',) = no
+    cell_numbers argument; ('obj', arr) = this very array.  vector_obj: this
+    very array as `vector` (history stream: arrays the caller holds)."""
     from emg3d import meshes
     vec = None if case['vector'] is None else np.array(case['vector'], dtype=float)
+    if vector_obj is not None:
+        vec = vector_obj
     dom = None if case['domain'] is None else list(case['domain'])
+    okw = oaw_kwargs(case)
+    if cells_arg is not None:
+        del okw['cell_numbers']
+        if cells_arg[0] == 'obj':
+            okw['cell_numbers'] = cells_arg[1]
+    if case.get('default_stretching'):
+        del okw['stretching']
     calls, cost = [], [0]
     orig_stretch = meshes._stretch
 
@@ -256,12 +287,12 @@ def run_oaw(case):
         try:
             out = meshes.origin_and_widths(case['frequency'], list(case['properties']),
                                            case['center'], dom, vec, case['seasurface'],
-                                           **oaw_kwargs(case))
+                                           **okw)
             if out[0] is None:
                 res = {'kind': 4}
             else:
                 res = {'kind': 0, 'x0': float(out[0]),
-                       'hx': [float(x) for x in np.atleast_1d(out[1])]}
+                       'hx': [float(x) for x in np.atleast_1d(out[1])], 'hx_obj': out[1]}
         except ValueError as e:
             res = {'kind': 1 if 'At least one' in str(e) else (2 if 'seasurface' in str(e) else 98),
                    'msg': str(e)}
@@ -698,7 +729,7 @@ def gen_cm_onedir(rng, natural=False):
     if which != 'coe' and rng.random() < 0.6:
         opts['coe'] = ('bool', rng.random() < 0.5)
     if natural:
-        cells = [int(x) for x in __import__('emg3d').meshes.good_mg_cell_nr(1024, 5, rng.choice([2, 3]))]
+        cells = doc_good_numbers(1024, 5, rng.choice([2, 3]))
         lam, mb = rng.choice([1.0, 0.5, 0.25]), rng.choice([100000.0, 20 * u, 50 * u])
     else:
         # marginal buffer: the buffer stretching has to leave 1.0 in the
@@ -774,7 +805,7 @@ def gen_cm_marine(rng, natural=False):
         vector = only_dir(rng, 2, vecz)
     if natural:
         stretching = NONE if rng.random() < 0.7 else pair_val(rng, (rng.choice([1.0, 1.05]), rng.choice([1.3, 1.5])))
-        cells = [int(x) for x in __import__('emg3d').meshes.good_mg_cell_nr(1024, 5, rng.choice([2, 3]))]
+        cells = doc_good_numbers(1024, 5, rng.choice([2, 3]))
         lam, mb = rng.choice([1.0, 0.5, 0.25]), rng.choice([100000.0, 20 * u, 50 * u])
         limits = rng.choice([NONE, ('num', u)])
     else:
@@ -906,15 +937,21 @@ def cm_eval_term(case, impl):
     permt = '[' + '; '.join(f"{i}%nat" for i in perm) + ']'
     sea = 'None' if case['seasurface'] is None else f"(Some {q(case['seasurface'])})"
     c = case['center']
-    cmin = (f"(mkCmIn {qlist(case['properties'])} ({q(c[0])}, {q(c[1])}, {q(c[2])}) "
-            f"{val_coq(case['domain'])} {val_coq(case['vector'])} {val_coq(case['distance'])} "
-            f"{val_coq(case['stretching'])} {val_coq(case['limits'])} {val_coq(case['pps'])} "
-            f"{val_coq(case['coe'])} {sea} {q(case['lambda_factor'])} {q(case['max_buffer'])} "
-            f"{V.coq_bool(case['lambda_from_center'])} {zlist(case['cell_numbers'])})")
+    cmin = cmin_term(case)
     return (f"Eval vm_compute in out_cm (construct_mesh qleb qfloor "
             f"(brentq_tab {brentq_term(impl['brentq'])}) (fun _ => {permt}) {q(TWOPI)} "
             f"(skin_tab {tab}) {cmin}).\n"
             f"Eval vm_compute in out_cm_inputs (cm_inputs (skin_tab {tab}) {cmin}).")
+
+
+def cmin_term(case):
+    sea = 'None' if case['seasurface'] is None else f"(Some {q(case['seasurface'])})"
+    c = case['center']
+    return (f"(mkCmIn {qlist(case['properties'])} ({q(c[0])}, {q(c[1])}, {q(c[2])}) "
+            f"{val_coq(case['domain'])} {val_coq(case['vector'])} {val_coq(case['distance'])} "
+            f"{val_coq(case['stretching'])} {val_coq(case['limits'])} {val_coq(case['pps'])} "
+            f"{val_coq(case['coe'])} {sea} {q(case['lambda_factor'])} {q(case['max_buffer'])} "
+            f"{V.coq_bool(case['lambda_from_center'])} {zlist(case['cell_numbers'])})")
 
 
 def dir_value(v, d, kw):
@@ -1038,7 +1075,7 @@ def tie_good_mg(ctx, dis):
     lines = [COQ_HEADER]
     for (m, p, d) in combos:
         lines.append(f"Eval vm_compute in out_opt_zlist (good_mg_cell_nr {V.coq_z(m)} {V.coq_z(p)} {V.coq_z(d)}).")
-    rc, out = V.coq_eval('c16_good', '\n'.join(lines) + '\n')
+    rc, out = (yield [('c16_good', '\n'.join(lines) + '\n')])['c16_good']
     if rc != 0:
         dis.append({'what': 'good_mg_cell_nr model does not evaluate', 'log': out[-1500:]})
         return 0, {}
@@ -1082,7 +1119,7 @@ def tie_stretch(ctx, dis):
         lim = rng.choice([None, K.dy_pos(rng), [K.dy_pos(rng)], sorted([K.dy_pos(rng), K.dy_pos(rng) * 4])])
         cw.append((sd, pps, lim))
         lines.append(f"Eval vm_compute in out_q (cell_width qleb {q(sd)} {q(pps)} {limits_term(lim)}).")
-    rc, out = V.coq_eval('c16_stretch', '\n'.join(lines) + '\n')
+    rc, out = (yield [('c16_stretch', '\n'.join(lines) + '\n')])['c16_stretch']
     if rc != 0:
         dis.append({'what': '_stretch model does not evaluate', 'log': out[-1500:]})
         return 0, {}
@@ -1171,7 +1208,7 @@ def tie_seasurface(ctx, dis):
                      f"{q(s0)} {q(s1)} {V.coq_bool(hv)} {limits_term(lim)}).")
         cases.append(c)
         impls.append(im)
-    rc, out = V.coq_eval('c16_sea', '\n'.join(lines) + '\n')
+    rc, out = (yield [('c16_sea', '\n'.join(lines) + '\n')])['c16_sea']
     if rc != 0:
         dis.append({'what': '_seasurface model does not evaluate', 'log': out[-1500:]})
         return 0, {}
@@ -1200,8 +1237,495 @@ def tie_seasurface(ctx, dis):
     return n, hist
 
 
+# ------------------------------------------- Round 7: one session, many calls
+def doc_good_numbers(max_nr=1024, max_lowest=5, min_div=3):
+    """The permitted cell numbers from the DOCUMENTED rule of good_mg_cell_nr
+    (p * 2^n <= max_nr, p in {2, 3, 5, 7, ...} <= max_lowest, n >= min_div),
+    recomputed here: independent of emg3d's own table at check time."""
+    out = set()
+    for p in (2, 3, 5, 7, 9, 11, 13, 15, 17, 19):
+        if p > max_lowest:
+            continue
+        n = min_div
+        while p * 2 ** n <= max_nr:
+            out.add(p * 2 ** n)
+            n += 1
+    return sorted(out)
+
+
+GRIDDING_FUNCS = ('construct_mesh', 'origin_and_widths', '_stretch', '_seasurface', 'good_mg_cell_nr',
+                  'skin_depth', 'wavelength', 'cell_width', 'estimate_gridding_opts')
+
+
+def tie_anchor(ctx, dis):
+    """Source anchor for 'the model has no state' (Model/GriddingSession.v): the
+    gridding functions of emg3d/meshes.py must be plain module-level functions
+    without decorator, without global / nonlocal statements at function level,
+    without mutable default arguments, without attributes stored on function
+    objects, and must not read a module-level name bound to a mutable container
+    or to the result of a call (a table / cache).  Fails closed."""
+    import os
+    src = open(os.path.join(V.REPO, 'emg3d', 'meshes.py')).read()
+    tree = ast.parse(src)
+    found = {}
+    module_mut = {}
+    for node in tree.body:
+        if isinstance(node, ast.FunctionDef):
+            found[node.name] = node
+        elif isinstance(node, (ast.Assign, ast.AnnAssign, ast.AugAssign)):
+            tg = node.targets if isinstance(node, ast.Assign) else [node.target]
+            val = node.value
+            for t in tg:
+                for nm in ast.walk(t):
+                    if isinstance(nm, ast.Name) and nm.id != '__all__':
+                        if isinstance(val, (ast.List, ast.Dict, ast.Set, ast.Call, ast.ListComp, ast.DictComp,
+                                            ast.SetComp)):
+                            module_mut[nm.id] = node.lineno
+                    elif isinstance(nm, ast.Attribute):
+                        module_mut[ast.unparse(nm)] = node.lineno
+    bad = []
+    for fn in GRIDDING_FUNCS:
+        node = found.get(fn)
+        if node is None:
+            bad.append(f"{fn}: not a module-level function any more")
+            continue
+        if node.decorator_list:
+            bad.append(f"{fn}: decorated with {[ast.unparse(d) for d in node.decorator_list]} "
+                       f"(memoisation / wrapping makes results shared state)")
+        for d in list(node.args.defaults) + [d for d in node.args.kw_defaults if d is not None]:
+            if isinstance(d, (ast.List, ast.Dict, ast.Set, ast.Call)):
+                bad.append(f"{fn}: mutable default argument {ast.unparse(d)}")
+        for sub in ast.walk(node):
+            if isinstance(sub, (ast.Global, ast.Nonlocal)) and not any(
+                    isinstance(p, ast.FunctionDef) and p is not node and sub in ast.walk(p)
+                    for p in ast.walk(node)):
+                bad.append(f"{fn}: {type(sub).__name__.lower()} statement on {sub.names}")
+            if isinstance(sub, ast.Name) and isinstance(sub.ctx, ast.Load) and sub.id in module_mut:
+                bad.append(f"{fn}: reads module-level mutable `{sub.id}` (meshes.py line {module_mut[sub.id]})")
+            if isinstance(sub, ast.Attribute) and isinstance(sub.value, ast.Name) and sub.value.id in GRIDDING_FUNCS:
+                bad.append(f"{fn}: uses attribute `{ast.unparse(sub)}` of a function object")
+    for nm, ln in module_mut.items():
+        if any(nm.startswith(f + '.') for f in GRIDDING_FUNCS):
+            bad.append(f"module level: attribute `{nm}` stored on a gridding function (line {ln})")
+    for b in sorted(set(bad)):
+        dis.append({'what': 'anchor: emg3d/meshes.py gridding function is not state-free: ' + b,
+                    'case': {'anchor': b}})
+    return len(GRIDDING_FUNCS), {'functions_checked': len(GRIDDING_FUNCS), 'flagged': len(set(bad))}
+
+
+EDIT_KINDS = [['add', 1], ['mul', 2], ['setat', 0, 250], ['clamp', 256, 250], ['fill', 0]]
+
+
+def call_good(args, form):
+    """good_mg_cell_nr in the call forms a user writes: without arguments (only
+    for the default table), positional, keywords, mixed -- the same table in all."""
+    from emg3d import meshes
+    if form == 'noargs' and list(args) == [1024, 5, 3]:
+        return meshes.good_mg_cell_nr()
+    if form == 'kw':
+        return meshes.good_mg_cell_nr(max_nr=args[0], max_lowest=args[1], min_div=args[2])
+    if form == 'mixed':
+        return meshes.good_mg_cell_nr(args[0], min_div=args[2], max_lowest=args[1])
+    return meshes.good_mg_cell_nr(*args)
+
+
+def good_text(args, form):
+    if form == 'noargs' and list(args) == [1024, 5, 3]:
+        return "meshes.good_mg_cell_nr()"
+    if form == 'kw':
+        return "meshes.good_mg_cell_nr(max_nr=%d, max_lowest=%d, min_div=%d)" % tuple(args)
+    if form == 'mixed':
+        return "meshes.good_mg_cell_nr(%d, min_div=%d, max_lowest=%d)" % (args[0], args[2], args[1])
+    return "meshes.good_mg_cell_nr(%d, %d, %d)" % tuple(args)
+
+
+def apply_edit(arr, e):
+    """The in-place edit e on the ndarray arr (never rebinding)."""
+    if e[0] == 'add':
+        arr += e[1]
+    elif e[0] == 'mul':
+        arr *= e[1]
+    elif e[0] == 'setat':
+        arr[e[1]] = e[2]
+    elif e[0] == 'clamp':
+        arr[arr > e[1]] = e[2]
+    elif e[0] == 'fill':
+        arr[:] = e[1]
+    else:
+        raise ValueError(e)
+
+
+def edit_coq(e):
+    return {'add': lambda: f"(EAdd {V.coq_z(e[1])})", 'mul': lambda: f"(EMul {V.coq_z(e[1])})",
+            'setat': lambda: f"(ESetAt {int(e[1])}%nat {V.coq_z(e[2])})",
+            'clamp': lambda: f"(EClampAbove {V.coq_z(e[1])} {V.coq_z(e[2])})",
+            'fill': lambda: f"(EFill {V.coq_z(e[1])})"}[e[0]]()
+
+
+def hist_oaw_case(rng, freq, mapping, small_s1=False, with_vector=False):
+    """A cheap origin_and_widths request (no sea surface): D unit cells of survey
+    domain, m cells of buffer per side, D + 2m <= a good number G and D > the
+    good number below G, so that the first candidate passing the first stage is
+    admissible with buffer stretching 1 (cheap on exact rationals)."""
+    props = [prop_value(rng, mapping) for _ in range(rng.choice([1, 2, 3]))]
+    case = dict(frequency=freq, properties=props, mapping=mapping, style='H')
+    sd0 = skin_depths(case)[0]
+    u = max(1.0, float(round(sd0 / 3)))
+    G, Gb = rng.choice([(16, 0), (16, 0), (24, 16), (32, 24)])
+    m = rng.randint(0, 3)
+    D = rng.randint(max(Gb + 1, 5), G - 2 * m)
+    a = rng.randint(2, D - 2)
+    center = float(rng.randint(-20, 20) * 16)
+    vector = None
+    if with_vector:
+        lo = min(a, 2)
+        vector = [center + k * u for k in range(-lo, min(D - a, 3) + 1)]
+    s1 = 1 + rng.randint(3, 9) / 1024 if small_s1 else 1.5
+    case.update(center=center, domain=[center - a * u, center + (D - a) * u], distance=None, vector=vector,
+                seasurface=None, stretching=[1.0, s1], limits=u, pps=3.0, lambda_factor=1.0,
+                max_buffer=float(m * u), lambda_from_center=False, cell_numbers=[],
+                center_on_edge=rng.choice([None, True, True]), raise_error=rng.random() < 0.7,
+                default_stretching=(not small_s1 and rng.random() < 0.5))
+    return case
+
+
+def hist_cm_case(rng, freq, mapping):
+    """A cheap construct_mesh request in the same spirit (default cell numbers)."""
+    nprops = rng.choice([0, 1, 3, 4])
+    props = [prop_value(rng, mapping) for _ in range(max(nprops, 1))]
+    sd0 = skin_depths(dict(frequency=freq, properties=props, mapping=mapping))[0]
+    u = max(1.0, float(round(sd0 / 3)))
+    center = [float(rng.randint(-20, 20) * 16) for _ in range(3)]
+    m = rng.randint(0, 2)
+    doms = []
+    for d in range(3):
+        G, Gb = rng.choice([(16, 0), (16, 0), (24, 16)])
+        D = rng.randint(max(Gb + 1, 5), G - 2 * m)
+        a = rng.randint(2, D - 2)
+        doms.append(pair_val(rng, (center[d] - a * u, center[d] + (D - a) * u)))
+    domain = ('dict', doms[0], doms[1], doms[2]) if rng.random() < 0.5 else seq(doms, rng.choice(['list', 'tuple']))
+    return dict(frequency=freq, mapping=mapping, properties=props, scalar_props=(nprops == 0),
+                center=center, domain=domain, vector=NONE, distance=NONE,
+                stretching=NONE if rng.random() < 0.6 else pair_val(rng, (1.0, 1.5)),
+                limits=('num', u), pps=NONE, coe=rng.choice([NONE, ('bool', True)]), seasurface=None,
+                lambda_factor=1.0, max_buffer=float(m * u), lambda_from_center=False, cell_numbers=[])
+
+
+def gen_history(rng, k):
+    """One session: requests, helper calls, in-place edits of returned / own
+    arrays, the same requests again.  Edit kinds are enumerated by k."""
+    freq = rng.choice([0.5, 1.0, 2.0, 4.0])
+    mapping = rng.choice(MAPS)
+    e_main = EDIT_KINDS[k % len(EDIT_KINDS)]
+    e_other = EDIT_KINDS[(k // len(EDIT_KINDS) + k + 1) % len(EDIT_KINDS)]
+    ops, nobj = [], [0]
+
+    def push(op, new=0):
+        ops.append(op)
+        h = nobj[0]
+        op['h0'] = h
+        nobj[0] += new
+        return h
+    r1 = hist_oaw_case(rng, freq, mapping)
+    push({'op': 'oaw', 'case': r1, 'cells': ['default'], 'vec': ['given']}, 1)
+    g = push({'op': 'good', 'args': [1024, 5, 3], 'form': 'noargs'}, 1)
+    push({'op': 'edit', 'h': g, 'edit': e_main})
+    push({'op': 'oaw', 'case': r1, 'cells': ['default'], 'vec': ['given']}, 1)
+    push({'op': 'good', 'args': [1024, 5, 3], 'form': 'noargs'}, 1)
+    blocks = ['cm', 'other', 'cells', 'vector']
+    rng.shuffle(blocks)
+    for b in blocks:
+        if b == 'cm':
+            c1 = hist_cm_case(rng, freq, mapping)
+            hx = push({'op': 'cm', 'case': c1, 'cells': ['default']}, 3)
+            g2 = push({'op': 'good', 'args': [1024, 5, 3], 'form': rng.choice(['noargs', 'kw', 'pos', 'mixed'])}, 1)
+            push({'op': 'edit', 'h': g2, 'edit': e_other})
+            push({'op': 'edit', 'h': hx + rng.randint(0, 2), 'edit': rng.choice([['mul', 2], ['add', 1], ['fill', 0]])})
+            push({'op': 'cm', 'case': c1, 'cells': ['default']}, 3)
+        elif b == 'other':
+            args = rng.choice([[5000, 5, 3], [1024, 3, 2], [50000, 5, 0], [1024, 7, 3], [100, 2, 1], [1024, 20, 3]])
+            form = rng.choice(['pos', 'kw', 'mixed'])
+            g3 = push({'op': 'good', 'args': args, 'form': form}, 0 if args[1] > 19 else 1)
+            if args[1] <= 19:
+                push({'op': 'edit', 'h': g3, 'edit': rng.choice(EDIT_KINDS[:2] + EDIT_KINDS[3:])})
+                push({'op': 'good', 'args': args, 'form': form}, 1)
+        elif b == 'cells':
+            r2 = hist_oaw_case(rng, freq, mapping, small_s1=True)
+            own = sorted(rng.sample([8, 12, 16, 20, 24, 32, 40], 4))
+            hc = push({'op': 'alloc', 'kind': 'int', 'vals': own}, 1)
+            push({'op': 'oaw', 'case': r2, 'cells': ['handle', hc], 'vec': ['given']}, 1)
+            push({'op': 'edit', 'h': hc, 'edit': rng.choice([['mul', 2], ['add', 2], ['setat', 0, 6]])})
+            push({'op': 'oaw', 'case': r2, 'cells': ['handle', hc], 'vec': ['given']}, 1)
+            push({'op': 'oaw', 'case': r2, 'cells': ['list', own], 'vec': ['given']}, 1)
+        else:
+            r3 = hist_oaw_case(rng, freq, mapping, with_vector=True)
+            hv = push({'op': 'alloc', 'kind': 'num', 'vals': r3['vector']}, 1)
+            push({'op': 'oaw', 'case': r3, 'cells': ['default'], 'vec': ['handle', hv]}, 1)
+            w = push({'op': 'oaw', 'case': r3, 'cells': ['default'], 'vec': ['handle', hv]}, 1)
+            push({'op': 'edit', 'h': w, 'edit': ['mul', 2]})
+            push({'op': 'edit', 'h': hv, 'edit': ['add', rng.choice([1, 2])]})
+            push({'op': 'oaw', 'case': r3, 'cells': ['default'], 'vec': ['handle', hv]}, 1)
+    g4 = push({'op': 'good', 'args': [1024, 5, 3], 'form': rng.choice(['noargs', 'noargs', 'kw', 'pos'])}, 1)
+    push({'op': 'edit', 'h': g4, 'edit': e_other})
+    push({'op': 'oaw', 'case': r1, 'cells': ['default'], 'vec': ['given']}, 1)
+    return {'frequency': freq, 'mapping': mapping, 'ops': ops}
+
+
+def hist_call_cm(case, cells):
+    """emg3d.construct_mesh for a history step (cell_numbers omitted / literal / heap array)."""
+    import emg3d
+    kw = dict(lambda_factor=case['lambda_factor'], max_buffer=case['max_buffer'],
+              lambda_from_center=case['lambda_from_center'], mapping=case['mapping'])
+    if cells is not None:
+        kw['cell_numbers'] = cells
+    for name, key in (('distance', 'distance'), ('stretching', 'stretching'),
+                      ('min_width_limits', 'limits'), ('min_width_pps', 'pps'),
+                      ('center_on_edge', 'coe')):
+        if case[key] != NONE:
+            kw[name] = val_py(case[key])
+    props = case['properties'][0] if case['scalar_props'] else list(case['properties'])
+    with warnings.catch_warnings(record=True) as ws:
+        warnings.simplefilter('always')
+        try:
+            m = emg3d.construct_mesh(case['frequency'], props, tuple(case['center']),
+                                     val_py(case['domain']), val_py(case['vector']),
+                                     case['seasurface'], **kw)
+            res = {'kind': 0, 'origin': [float(x) for x in m.origin],
+                   'h': [[float(x) for x in h] for h in m.h], 'h_obj': [m.h[0], m.h[1], m.h[2]]}
+        except ValueError as e:
+            res = {'kind': 10, 'msg': str(e)}
+        except RuntimeError as e:
+            res = {'kind': 3, 'msg': str(e)}
+        except Exception as e:
+            res = {'kind': 97, 'msg': repr(e)}
+    res['warns'] = warn_codes(ws)
+    return res
+
+
+def run_history(hist):
+    """Drive the REAL implementation through the history, in this process.
+    Returns (list of per-step results, heap of ndarrays, aliasing remarks)."""
+    from emg3d import meshes
+    heap, results, alias = [], [], []
+
+    def adopt(k, arr, inputs=()):
+        for j, old in enumerate(list(heap) + list(inputs)):
+            if isinstance(old, np.ndarray) and isinstance(arr, np.ndarray) and np.shares_memory(arr, old):
+                alias.append((k, j if j < len(heap) else 'input'))
+        heap.append(arr)
+    for k, op in enumerate(hist['ops']):
+        t = op['op']
+        if t == 'good':
+            try:
+                arr = call_good(op['args'], op.get('form', 'pos'))
+                results.append({'kind': 103, 'vals': [int(x) for x in arr]})
+                adopt(k, arr)
+            except ValueError:
+                results.append({'kind': 102})
+        elif t == 'alloc':
+            heap.append(np.array(op['vals'], dtype=np.int64 if op['kind'] == 'int' else np.float64))
+            results.append({'kind': 100})
+        elif t == 'edit':
+            if op['h'] >= len(heap):
+                results.append({'kind': 101})
+            else:
+                apply_edit(heap[op['h']], op['edit'])
+                results.append({'kind': 100})
+        elif t in ('oaw', 'cm') and (
+                (op['cells'][0] == 'handle' and not (op['cells'][1] < len(heap)
+                                                     and heap[op['cells'][1]].dtype.kind == 'i'))
+                or (t == 'oaw' and op['vec'][0] == 'handle' and not (op['vec'][1] < len(heap)
+                                                                    and heap[op['vec'][1]].dtype.kind == 'f'))):
+            results.append({'kind': 101})        # the history names an array that is not there (BadHandle)
+        elif t == 'oaw':
+            cells = {'default': lambda: ('default',), 'list': lambda: ('obj', list(op['cells'][1])),
+                     'handle': lambda: ('obj', heap[op['cells'][1]])}[op['cells'][0]]()
+            vobj = heap[op['vec'][1]] if op['vec'][0] == 'handle' else None
+            im = run_oaw(op['case'], cells_arg=cells, vector_obj=vobj)
+            results.append(im)
+            if im['kind'] == 0:
+                adopt(k, np.atleast_1d(im.pop('hx_obj')), [x for x in (vobj, cells[-1]) if isinstance(x, np.ndarray)])
+        elif t == 'cm':
+            cells = {'default': lambda: None, 'list': lambda: list(op['cells'][1]),
+                     'handle': lambda: heap[op['cells'][1]]}[op['cells'][0]]()
+            im = hist_call_cm(op['case'], cells)
+            results.append(im)
+            if im['kind'] == 0:
+                for h in im.pop('h_obj'):
+                    adopt(k, h)
+    return results, heap, alias
+
+
+def history_term(hist):
+    """The Coq term of the history (Model/GriddingSession.v) and the skin table."""
+    tab = {}
+    terms = []
+    for op in hist['ops']:
+        t = op['op']
+        if t == 'good':
+            terms.append("(OGood %s %s %s)" % tuple(V.coq_z(x) for x in op['args']))
+        elif t == 'alloc':
+            terms.append(f"(OAlloc (OInt {zlist(op['vals'])}))" if op['kind'] == 'int'
+                         else f"(OAlloc (ONum {qlist(op['vals'])}))")
+        elif t == 'edit':
+            terms.append(f"(OEdit {int(op['h'])}%nat {edit_coq(op['edit'])})")
+        else:
+            ca = op['cells']
+            cells = 'CDefault' if ca[0] == 'default' else (
+                f"(CList {zlist(ca[1])})" if ca[0] == 'list' else f"(CHandle {int(ca[1])}%nat)")
+            if t == 'oaw':
+                c = dict(op['case'])
+                if op['vec'][0] == 'handle':
+                    c['vector'] = None
+                vec = 'VGiven' if op['vec'][0] == 'given' else f"(VHandle {int(op['vec'][1])}%nat)"
+                terms.append(f"(OOaw {oawin_term(c, skin_depths(op['case']))} {cells} {vec})")
+            else:
+                c = op['case']
+                for p, sd in zip(c['properties'], skin_depths(c)):
+                    tab[float(p)] = sd
+                terms.append(f"(OCm {cmin_term(c)} {cells})")
+    tabt = '[' + '; '.join(f"({q(p)}, {q(sd)})" for p, sd in sorted(tab.items())) + ']'
+    perm = '[' + '; '.join(f"{i}%nat" for i in range(13)) + ']'
+    return (f"Eval vm_compute in out_session (GriddingSession.run qleb qfloor (brentq_tab []) "
+            f"(fun _ => {perm}) {q(TWOPI)} (skin_tab {tabt}) [" + ';\n  '.join(terms) + "] []).")
+
+
+def compare_history(hist, results, heap, alias, ans, dis):
+    outs, mheap = ans
+    what = 'history (one session)'
+    short = {'session': hist.get('k'), 'ops': [hist_step_text(o) for o in hist['ops']]}
+    if alias:
+        k, j = alias[0]
+        dis.append({'what': f'{what}: the array returned by step {k} shares memory with '
+                            f'{"an argument array" if j == "input" else "heap array a%s the caller already holds" % j}',
+                    'case': short})
+    if len(outs) != len(results):
+        dis.append({'what': f'{what}: number of outcomes differs', 'case': short})
+        return False
+    for k, (im, mo, op) in enumerate(zip(results, outs, hist['ops'])):
+        warns, code, ints, pairs = mo
+        t = op['op']
+        here = dict(short, step=k, step_text=hist_step_text(op))
+        if t in ('good', 'alloc', 'edit'):
+            if code != im['kind'] or (code == 103 and list(ints) != im['vals']):
+                dis.append({'what': f'{what}: step {k} ({hist_step_text(op)[:60]}) differs', 'case': here,
+                            'impl': im, 'model': {'code': code, 'vals': list(ints)}})
+                return False
+        elif im['kind'] == 101 or code == 101:
+            if im['kind'] != code:
+                dis.append({'what': f'{what}: step {k} ({hist_step_text(op)[:60]}) differs', 'case': here,
+                            'impl': im['kind'], 'model': code})
+                return False
+        elif t == 'oaw':
+            tmp = []
+            if not _compare_oaw(op['case'], im, mo, tmp, what=f'{what}: step {k} origin_and_widths'):
+                d = tmp[0]
+                d['case'] = here
+                dis.append(d)
+                return False
+        else:
+            mk = {210: 10, 211: 10, 212: 10}.get(code, code - 200)
+            if mk != im['kind'] or list(warns) != im['warns']:
+                dis.append({'what': f'{what}: step {k} construct_mesh result kind / warnings differ', 'case': here,
+                            'impl': {'kind': im['kind'], 'warns': im['warns'], 'msg': im.get('msg')},
+                            'model': {'kind': code - 200, 'warns': list(warns)}})
+                return False
+            if mk == 0:
+                vals = [fr(p) for p in pairs]
+                iv = im['origin'] + im['h'][0] + im['h'][1] + im['h'][2]
+                if [len(h) for h in im['h']] != [int(x) for x in ints]:
+                    dis.append({'what': f'{what}: step {k} construct_mesh number of cells differs', 'case': here,
+                                'impl': [len(h) for h in im['h']], 'model': [int(x) for x in ints]})
+                    return False
+                scale = max(abs(x) for x in iv)
+                if any(not close(a, b, scale * 1e-3) for a, b in zip(iv, vals)):
+                    dis.append({'what': f'{what}: step {k} construct_mesh origin / widths differ', 'case': here})
+                    return False
+    # the whole heap at the end: calls modified no array of the caller, edits hit one array each
+    if len(mheap) != len(heap):
+        dis.append({'what': f'{what}: number of arrays on the heap differs', 'case': short,
+                    'impl': len(heap), 'model': len(mheap)})
+        return False
+    for j, (arr, (kind, ints, pairs)) in enumerate(zip(heap, mheap)):
+        if kind == 0:
+            same = [int(x) for x in arr] == [int(x) for x in ints]
+        else:
+            mv = [fr(p) for p in pairs]
+            same = len(mv) == len(arr) and all(close(a, b, 1e-6) for a, b in zip(arr, mv))
+        if not same:
+            dis.append({'what': f'{what}: heap array {j} differs after the history (an array the caller holds '
+                                f'was modified by a call, or a returned array is shared)', 'case': short,
+                        'impl': [float(x) for x in arr][:12], 'model': (list(ints) or [float(fr(p)) for p in pairs])[:12]})
+            return False
+    return True
+
+
+def hist_step_text(op):
+    t = op['op']
+    if t == 'good':
+        return f"a{op.get('h0', '?')} = " + good_text(op['args'], op.get('form', 'pos'))
+    if t == 'alloc':
+        return f"a{op.get('h0', '?')} = np.array({op['vals']})"
+    if t == 'edit':
+        e = op['edit']
+        return {'add': f"a{op['h']} += {e[1]}", 'mul': f"a{op['h']} *= {e[1]}",
+                'setat': f"a{op['h']}[{e[1]}] = {e[-1]}", 'clamp': f"a{op['h']}[a{op['h']} > {e[1]}] = {e[-1]}",
+                'fill': f"a{op['h']}[:] = {e[1]}"}[e[0]]
+    c = op['case']
+    cells = {'default': '', 'list': f", cell_numbers={op['cells'][-1]}",
+             'handle': f", cell_numbers=a{op['cells'][-1]}"}[op['cells'][0]]
+    if t == 'oaw':
+        vec = f"a{op['vec'][1]}" if op['vec'][0] == 'handle' else repr(c['vector'])
+        return (f"{('x0, a%d = ' % op['h0']) if 'h0' in op else ''}origin_and_widths({c['frequency']}, {c['properties']}, {c['center']}, {c['domain']}, vector={vec}, "
+                f"mapping={c['mapping']!r}, min_width_limits={c['limits']}, max_buffer={c['max_buffer']}"
+                f"{'' if c.get('default_stretching') else ', stretching=%s' % c['stretching']}, "
+                f"center_on_edge={c['center_on_edge']}{cells})")
+    return (f"{('a%d, a%d, a%d = ' % (op['h0'], op['h0'] + 1, op['h0'] + 2)) if 'h0' in op else ''}construct_mesh({c['frequency']}, {c['properties']}, {c['center']}, "
+            f"domain={val_py(c['domain'])}, vector={val_py(c['vector'])}, seasurface={c['seasurface']}, "
+            f"mapping={c['mapping']!r}, min_width_limits={val_py(c['limits'])}, max_buffer={c['max_buffer']}{cells}){'.h' if 'h0' in op else ''}")
+
+
+def tie_history(ctx, dis):
+    """History stream: sessions of gridding calls and in-place edits on the REAL
+    implementation, all in this one process, against Model/GriddingSession.v."""
+    rng = ctx.rng
+    n = 15 if ctx.thorough else 5
+    hists = []
+    for k in range(n):
+        h = gen_history(rng, k)
+        h['k'] = k
+        hists.append(h)
+    runs = [run_history(h) for h in hists]
+    per = 3
+    head = COQ_HEADER + "From V Require Import Model.GriddingSession.\n"
+    texts = [(f"c16_hist_{j // per}", head + '\n'.join(history_term(h) for h in hists[j:j + per]) + '\n')
+             for j in range(0, n, per)]
+    res = yield texts
+    hist = {'sessions': n, 'steps': 0}
+    for j in range(0, n, per):
+        rc, out = res[f"c16_hist_{j // per}"]
+        if rc != 0:
+            dis.append({'what': 'history model does not evaluate', 'log': out[-1500:]})
+            continue
+        for h, (results, heap, alias), a in zip(hists[j:j + per], runs[j:j + per], V.eval_answers(out)):
+            compare_history(h, results, heap, alias, parse_ans(a), dis)
+            hist['steps'] += len(h['ops'])
+            for op in h['ops']:
+                key = op['op'] + ('/' + op['edit'][0] if op['op'] == 'edit' else '') + (
+                    '/' + op['cells'][0] if 'cells' in op else '') + (
+                    '/vec-' + op['vec'][0] if 'vec' in op else '')
+                hist[key] = hist.get(key, 0) + 1
+            kinds = {}
+            for r in results:
+                kinds[r['kind']] = kinds.get(r['kind'], 0) + 1
+            for kk, v in kinds.items():
+                hist['outcome%d' % kk] = hist.get('outcome%d' % kk, 0) + v
+    return sum(len(h['ops']) for h in hists), hist
+
+
 # ------------------------------------------------------------ correspondence
 COST_CAP = 4000
+QUICK_OAW_CAP = 2500      # quick tier: the few costliest origin_and_widths sets dominated the wall time
 
 
 def batched(prefix, terms, per):
@@ -1214,24 +1738,27 @@ def correspondence(ctx):
     dis = []
     del TIE_SKIPS[:]
     hist = {}
-    n_good, hist['good_mg_cell_nr'] = tie_good_mg(ctx, dis)
-    n_str, hist['_stretch'] = tie_stretch(ctx, dis)
-    n_sea, hist['_seasurface'] = tie_seasurface(ctx, dis)
+    # the small ties are generators: they yield their Coq files, which are evaluated
+    # together with the origin_and_widths / construct_mesh files in ONE parallel wave
+    ties = [('good_mg_cell_nr', tie_good_mg(ctx, dis)), ('_stretch', tie_stretch(ctx, dis)),
+            ('_seasurface', tie_seasurface(ctx, dis))]
+    tie_texts = [next(g) for _, g in ties]
 
     # origin_and_widths
     n_oaw = 160 if ctx.thorough else 48
     cap = 12000 if ctx.thorough else COST_CAP
+    cap_oaw = cap if ctx.thorough else QUICK_OAW_CAP
     cases, impls, skipped = [], [], 0
     while len(cases) < n_oaw:
         c = gen_oaw(rng)
         im = run_oaw(c)
-        if im['cost'] > cap:
+        if im['cost'] > cap_oaw:
             skipped += 1
             continue
         cases.append(c)
         impls.append(im)
     order = sorted(range(n_oaw), key=lambda k: -impls[k]['cost'])       # spread the costly ones
-    per = 6
+    per = 6 if ctx.thorough else 8
     nfiles = (n_oaw + per - 1) // per
     groups = [[] for _ in range(nfiles)]
     for pos, k in enumerate(order):
@@ -1252,11 +1779,22 @@ def correspondence(ctx):
             continue
         cmc.append(c)
         cmi.append(im)
-    per_cm = 4
+    per_cm = 4 if ctx.thorough else 6
     texts += [(f"c16_cm_{k // per_cm}", COQ_HEADER + '\n'.join(
         cm_eval_term(c, im) for c, im in zip(cmc[k:k + per_cm], cmi[k:k + per_cm])) + '\n')
         for k in range(0, n_cm, per_cm)]
-    res = V.coq_eval_many(texts, timeout=1500)
+    n_anchor, hist['anchor_state_free'] = tie_anchor(ctx, dis)
+    ties.append(('history', tie_history(ctx, dis)))
+    tie_texts.append(next(ties[-1][1]))
+    res = V.coq_eval_many(texts + [t for tt in tie_texts for t in tt], timeout=1500)
+    counts = {}
+    for (nm, g), tt in zip(ties, tie_texts):
+        try:
+            g.send({name: res[name] for name, _ in tt})
+            counts[nm], hist[nm] = 0, {}
+        except StopIteration as stop:
+            counts[nm], hist[nm] = stop.value
+    n_good, n_str, n_sea, n_hist = (counts[k] for k in ('good_mg_cell_nr', '_stretch', '_seasurface', 'history'))
 
     feats, distinct = {}, set()
     for g, grp in enumerate(groups):
@@ -1302,7 +1840,7 @@ def correspondence(ctx):
         ctx.notes.append(f"{len(TIE_SKIPS)} result(s) not compared: domain widened to the sea surface and brentq "
                          f"cells (alph != 1) end there only up to rounding, so `edges[1] >= domain[1]` in "
                          f"_stretch is decided by rounding noise")
-    total = n_good + n_str + n_sea + n_oaw + n_cm
+    total = n_good + n_str + n_sea + n_oaw + n_cm + n_hist
     return {
         'evaluations': total,
         'distinct_nontrivial': len(distinct),
@@ -1538,6 +2076,240 @@ def perturb(rng, case):
     return c
 
 
+# ------------------------------- Round 7 searcher: histories, independent oracle
+def _snap(x):
+    """Deep, comparable snapshot of an argument value (arrays -> tuples)."""
+    if isinstance(x, np.ndarray):
+        return ('nd', x.dtype.str, x.shape, tuple(x.ravel().tolist()))
+    if isinstance(x, dict):
+        return ('dict', tuple((k, _snap(v)) for k, v in x.items()))
+    if isinstance(x, (list, tuple)):
+        return (type(x).__name__, tuple(_snap(v) for v in x))
+    return x
+
+
+def call_cm_checked(case):
+    """construct_mesh on one case (cells_default: no cell_numbers argument, the
+    oracle uses the documented rule).  Returns (violations, summary)."""
+    import emg3d
+    kw = dict(lambda_factor=case['lambda_factor'], max_buffer=case['max_buffer'],
+              lambda_from_center=case['lambda_from_center'], mapping=case['mapping'])
+    if not case.get('cells_default'):
+        kw['cell_numbers'] = np.array(case['cell_numbers'], dtype=np.int64)
+    for name, key in (('distance', 'distance'), ('stretching', 'stretching'),
+                      ('min_width_limits', 'limits'), ('min_width_pps', 'pps'),
+                      ('center_on_edge', 'coe')):
+        if case[key] != NONE:
+            kw[name] = val_py(case[key])
+    props = case['properties'][0] if case['scalar_props'] else list(case['properties'])
+    args = [case['frequency'], props, tuple(case['center']), val_py(case['domain']), val_py(case['vector']),
+            case['seasurface']]
+    before = (_snap(args), _snap(kw))
+    with warnings.catch_warnings(record=True) as ws:
+        warnings.simplefilter('always')
+        try:
+            m = emg3d.construct_mesh(*args, **kw)
+        except (ValueError, RuntimeError) as e:
+            return [], ('error', type(e).__name__), None
+    bad = []
+    if (_snap(args), _snap(kw)) != before:
+        bad.append("construct_mesh modified an argument (array / dict / list) handed to it")
+    wc = warn_codes(ws)
+    oc = dict(case)
+    if case.get('cells_default'):
+        oc['cell_numbers'] = doc_good_numbers()
+    for d, dc in enumerate(cm_dir_cases(oc)):
+        if dc['domain'] is None and dc['distance'] is None and dc['vector'] is None:
+            continue
+        b = post_oaw(dc, (m.origin[d], m.h[d]), wc) + post_min_width(dc, np.asarray(m.h[d]))
+        bad += [f"direction {'xyz'[d]}: {x}" for x in b]
+    summ = ('mesh', tuple(len(h) for h in m.h), tuple(float(x) for x in m.origin),
+            tuple(tuple(float(x) for x in h) for h in m.h))
+    return bad, summ, m
+
+
+def call_oaw_checked(case):
+    from emg3d import meshes
+    vec = None if case['vector'] is None else np.array(case['vector'], dtype=float)
+    dom = None if case['domain'] is None else list(case['domain'])
+    kw = oaw_kwargs(case)
+    oc = dict(case)
+    if case.get('cells_default'):
+        del kw['cell_numbers']
+        oc['cell_numbers'] = doc_good_numbers()
+    else:
+        kw['cell_numbers'] = np.array(case['cell_numbers'], dtype=np.int64)
+    if case.get('default_stretching'):
+        del kw['stretching']
+    args = [case['frequency'], list(case['properties']), case['center'], dom, vec, case['seasurface']]
+    before = (_snap(args), _snap(kw))
+    with warnings.catch_warnings(record=True) as ws:
+        warnings.simplefilter('always')
+        try:
+            out = meshes.origin_and_widths(*args, **kw)
+        except (ValueError, RuntimeError) as e:
+            return [], ('error', type(e).__name__), None
+    bad = []
+    if (_snap(args), _snap(kw)) != before:
+        bad.append("origin_and_widths modified an argument (array / list) handed to it")
+    if out[0] is None:
+        return bad + ([] if not case['raise_error'] else ["returned None's although raise_error=True"]), ('none',), None
+    bad += post_oaw(oc, out, warn_codes(ws))
+    return bad, ('grid', float(out[0]), tuple(float(x) for x in np.atleast_1d(out[1]))), out
+
+
+def exec_search_history(h):
+    """Run one searcher history on the REAL implementation (this process):
+    requests, helper calls whose returned arrays are edited in place, the same
+    requests again.  Returns (violations, textual steps)."""
+    import emg3d
+    from emg3d import meshes
+    bad, txt = [], []
+    cm, oc = h['cm'], h['oaw']
+    txt.append("m1 = " + hist_step_text({'op': 'cm', 'case': cm, 'cells': ['default']}))
+    b1, s1, m1 = call_cm_checked(cm)
+    bad += [f"first construct_mesh: {x}" for x in b1]
+    txt.append("o1 = " + hist_step_text({'op': 'oaw', 'case': oc, 'cells': ['default'], 'vec': ['given']}))
+    b2, s2, o1 = call_oaw_checked(oc)
+    bad += [f"first origin_and_widths: {x}" for x in b2]
+    g1 = gs = None
+    if h.get('gopts'):
+        try:
+            grid = emg3d.TensorMesh([np.ones(8) * 100.0] * 3, origin=(-400.0, -400.0, -800.0))
+            model = emg3d.Model(grid, 1.0)
+            survey = emg3d.surveys.Survey(sources=emg3d.TxElectricDipole((0, 0, -300, 0, 0)),
+                                          receivers=emg3d.RxElectricPoint((200, 0, -300, 0, 0)), frequencies=1.0)
+            with warnings.catch_warnings():
+                warnings.simplefilter('ignore')
+                g1 = meshes.estimate_gridding_opts({}, model, survey)
+            gs = _snap(g1)
+            txt.append("g1 = meshes.estimate_gridding_opts({}, model, survey)   # 8x8x8 cells of 100 m, 1 Ohm.m")
+        except Exception as e:
+            txt.append(f"(estimate_gridding_opts not usable here: {e!r})")
+            g1 = None
+    for k, mu in enumerate(h['mut']):
+        kind, e = mu[0], mu[-1]
+        try:
+            if kind == 'good':
+                arr = call_good(mu[1], mu[2])
+                txt.append(f"t{k} = " + good_text(mu[1], mu[2]))
+            elif kind == 'skin_depth':
+                arr = meshes.skin_depth(cm['frequency'], np.array([1.0, 0.5, 2.0]))
+                txt.append(f"t{k} = meshes.skin_depth({cm['frequency']}, np.array([1.0, 0.5, 2.0]))")
+            elif kind == 'wavelength':
+                arr = meshes.wavelength(np.array([100.0, 200.0, 300.0]))
+                txt.append(f"t{k} = meshes.wavelength(np.array([100., 200., 300.]))")
+            elif kind == 'cell_width':
+                arr = meshes.cell_width(np.array([100.0, 200.0, 300.0]), 3, None)
+                txt.append(f"t{k} = meshes.cell_width(np.array([100., 200., 300.]), 3, None)")
+            elif kind == 'mesh_h':
+                arr = None if m1 is None else m1.h[mu[1]]
+                txt.append(f"t{k} = m1.h[{mu[1]}]")
+            elif kind == 'mesh_origin':
+                arr = None if m1 is None else m1.origin
+                txt.append(f"t{k} = m1.origin")
+            elif kind == 'oaw_hx':
+                arr = None if o1 is None else o1[1]
+                txt.append(f"t{k} = o1[1]")
+            elif kind == 'gopts':
+                arr = None
+                if g1 is not None:
+                    arr = [v for v in list(g1.get('domain', {}).values()) + [g1.get('center')]
+                           if isinstance(v, np.ndarray)]
+                    arr = arr[0] if arr else None
+                txt.append(f"t{k} = first ndarray among g1['domain'].values(), g1['center']")
+            else:
+                continue
+            if isinstance(arr, np.ndarray) and arr.ndim >= 1 and arr.size and arr.flags.writeable:
+                apply_edit(arr, e)
+                txt.append('    ' + hist_step_text({'op': 'edit', 'h': 0, 'edit': e}).replace('a0', f't{k}'))
+            else:
+                txt.append(f"    (t{k} is not a writeable ndarray: nothing to edit)")
+        except Exception as ex:
+            txt.append(f"    (step raised {ex!r})")
+    txt.append("m2 = the same construct_mesh request as m1")
+    b3, s3, _ = call_cm_checked(cm)
+    bad += [f"construct_mesh after the edits: {x}" for x in b3]
+    if s1 != s3:
+        bad.append(f"identical construct_mesh requests returned different results in one session: "
+                   f"{s1[1]} before, {s3[1]} after in-place edits of returned arrays")
+    txt.append("o2 = the same origin_and_widths request as o1")
+    b4, s4, _ = call_oaw_checked(oc)
+    bad += [f"origin_and_widths after the edits: {x}" for x in b4]
+    if s2 != s4:
+        bad.append(f"identical origin_and_widths requests returned different results in one session: "
+                   f"{len(s2[2]) if s2[0] == 'grid' else s2} cells before, "
+                   f"{len(s4[2]) if s4[0] == 'grid' else s4} after in-place edits of returned arrays")
+    if g1 is not None:
+        try:
+            with warnings.catch_warnings():
+                warnings.simplefilter('ignore')
+                g2 = meshes.estimate_gridding_opts({}, model, survey)
+            txt.append("g2 = meshes.estimate_gridding_opts({}, model, survey)")
+            if _snap(g2) != gs:
+                bad.append("identical estimate_gridding_opts requests returned different options in one session")
+            user = {'center_on_edge': False, 'stretching': [1.0, 1.3], 'min_width_limits': [50.0, 200.0]}
+            us = _snap(user)
+            shapes = []
+            for _ in range(2):
+                with warnings.catch_warnings():
+                    warnings.simplefilter('ignore')
+                    sim = emg3d.Simulation(survey, model, gridding='single', gridding_opts=user)
+                    shapes.append(tuple(int(x) for x in sim.get_grid('TxED-1', 'f-1').shape_cells))
+            txt.append(f"emg3d.Simulation(survey, model, gridding='single', gridding_opts={user}) twice: {shapes}")
+            if _snap(user) != us:
+                bad.append("Simulation modified the gridding_opts dict handed to it")
+            if shapes[0] != shapes[1]:
+                bad.append(f"identical Simulation gridding requests gave different grids: {shapes}")
+            good = set(doc_good_numbers())
+            if any(n not in good for n in shapes[1]):
+                bad.append(f"Simulation single grid {shapes[1]} has a cell count that is not p*2^n (p in 2,3,5; n>=3)")
+        except Exception as ex:
+            txt.append(f"(Simulation / estimate_gridding_opts step raised {ex!r})")
+    return bad, txt
+
+
+def gen_search_history(rng, k):
+    freq = rng.choice([0.5, 1.0, 2.0, 4.0])
+    mapping = rng.choice(MAPS)
+    if k % 3 == 0:
+        cm = hist_cm_case(rng, freq, mapping)
+    elif k % 3 == 1:
+        cm = gen_cm_onedir(rng, natural=True)
+    else:
+        cm = gen_cm_marine(rng, natural=True)
+    cm = dict(_jsonable_cm(cm), cells_default=True, cell_numbers=[])
+    oc = dict(hist_oaw_case(rng, freq, mapping), cells_default=True)
+    e = EDIT_KINDS[k % len(EDIT_KINDS)]
+    mut = [['good', [1024, 5, 3], 'noargs', e],
+           ['good', [1024, 5, 3], rng.choice(['pos', 'kw', 'mixed']), rng.choice(EDIT_KINDS)],
+           ['good', rng.choice([[5000, 5, 3], [1024, 3, 2], [50000, 5, 0], [1024, 7, 3]]),
+            rng.choice(['pos', 'kw', 'mixed']), rng.choice(EDIT_KINDS)],
+           ['skin_depth', ['fill', 0]], ['wavelength', ['add', 1]], ['cell_width', ['mul', 2]],
+           ['mesh_h', rng.randint(0, 2), rng.choice([['mul', 2], ['fill', 0], ['add', 1]])],
+           ['mesh_origin', ['add', 1]], ['oaw_hx', ['mul', 2]], ['gopts', ['add', 1]]]
+    rng.shuffle(mut)
+    return {'cm': cm, 'oaw': oc, 'mut': mut, 'gopts': k % 2 == 0}
+
+
+def search_history(ctx, n):
+    for k in range(n):
+        h = gen_search_history(ctx.rng, k)
+        try:
+            bad, txt = exec_search_history(dict(h, cm=cm_from_json(h['cm'])))
+        except Exception as e:
+            ctx.notes.append(f"searcher: exception {e!r} in a history")
+            continue
+        if bad:
+            key = 'identical' if any('identical' in b for b in bad) else bad[0]
+            sig = ('history: identical requests give different meshes after in-place edit of a returned array'
+                   if key == 'identical' else 'history: ' + bad[0].split(' [')[0][:70])
+            return [{'signature': sig, 'fn': 'history', 'history': h, 'steps': txt, 'violated': bad}]
+    ctx.notes.append(f"searcher: {n} histories in one process (requests, helper calls with in-place edits of every "
+                     f"returned array, the same requests again; permitted cell numbers from the documented rule)")
+    return []
+
+
 def search(ctx, broken):
     rng = ctx.rng
     hits = []
@@ -1559,6 +2331,12 @@ def search(ctx, broken):
                 hits.append({'signature': 'construct_mesh: ' + bad[0].split(' [')[0][:70],
                              'fn': 'construct_mesh', 'case': _jsonable_cm(d['case']), 'violated': bad})
                 return hits
+    n_hist = 20 if ctx.thorough else 6
+    hist_broke = any(str(b.get('obligation', '')).startswith(('history', 'anchor')) for b in broken or [])
+    if hist_broke:
+        hits = search_history(ctx, n_hist)
+        if hits:
+            return hits
     # construct_mesh: one option in one direction only (x/y agree otherwise), and the general stream
     n_cm = 300 if ctx.thorough else 120
     for k in range(n_cm):
@@ -1597,13 +2375,18 @@ def search(ctx, broken):
             break
     ctx.notes.append(f"searcher: postconditions evaluated on {tried} origin_and_widths parameter sets "
                      f"(half of them non-dyadic)")
+    if not hits and not hist_broke:
+        hits = search_history(ctx, n_hist)
     return hits
 
 
 def replay(ctx, payload):
     fi = payload.get('failing_input')
-    if not fi or 'case' not in fi:
+    if not fi or ('case' not in fi and 'history' not in fi):
         return False
+    if fi.get('fn') == 'history':
+        h = fi['history']
+        return not exec_search_history(dict(h, cm=cm_from_json(h['cm'])))[0]
     if fi.get('fn') == 'construct_mesh':
         return not check_cm_case(cm_from_json(fi['case']))
     return not check_oaw_case(fi['case'])
